@@ -303,6 +303,7 @@ type Val struct {
 	tuple []Val
 	fn    *FnVal
 	prot  *protInfo // value read from / address of a mutex-protected field
+	boxed *Val      // interface value made from this (statically known) value: lets an invoke be devirtualized
 }
 
 type deferred struct {
